@@ -8,6 +8,7 @@ import DW.Model.StdLaws
 import DW.Lemmas.Strings
 import DW.Lemmas.Dump
 import DW.Lemmas.RoundTrip
+import DW.Lemmas.RoundTripKeys
 
 namespace DW.Props.C01
 open DW
@@ -134,6 +135,31 @@ finds the tag entry behind the field entries and dispatches on it (`RT.rt_unionT
 theorem C01_roundtrip_struct (std : Std) (laws : StdLaws std) (cfg : Option MetaCfg) (t : Ty) (v : PyVal)
     (hc : RT.Conf std cfg t v) (d : DVal) (h : dumpV std false cfg v = .ok d) : loadD std cfg t (RT.toJ d) = .ok v :=
   RT.roundtrip std cfg laws t v hc d h
+
+/-- **every `key_transform_with_dump` setting, canonically snake_cased names.** The one condition of `RT.ClsOK` that
+speaks about key spellings (`keys`) is a theorem on the property's own name class: for a class whose fields are plain
+constructor fields without aliases, named by words `[a-z][a-z0-9]+` joined with `_` (`RT.NameOK`), loaded with the default
+key transform, the class is in the fragment of `C01_roundtrip_struct` under *whatever* dump transform its effective Meta
+carries (CAMEL — the default —, PASCAL, LISP, SNAKE or NONE) — via the casing round trips of `DW.C08Case`. -/
+theorem C01_every_dump_transform (cfg : Option MetaCfg) (ci : ClassInfo) (ftys : List (S × Ty))
+    (hns : RT.NoSkip (effMeta ci.cmeta cfg)) (htag : (effMeta ci.cmeta cfg).tag = none)
+    (hnames : ci.fields.map (·.name) = ftys.map (·.1)) (hnd : (ci.fields.map (·.name)).Nodup)
+    (hplain : ∀ f ∈ ci.fields, f.init = true ∧ f.isCatchAll = false ∧ f.dumpSkip = false ∧ f.skipIf = none ∧
+      f.loadKeys = [] ∧ f.dumpAll = false)
+    (hN : ∀ f ∈ ci.fields, RT.NameOK f.name)
+    (hload : (effMeta ci.cmeta cfg).keyTransformLoad.getD .snake = .snake) :
+    RT.PlainCls cfg ci ftys :=
+  { noSkip := hns, tag := htag, names := hnames, nodup := hnd,
+    plain := fun f hf => ⟨(hplain f hf).1, (hplain f hf).2.1, (hplain f hf).2.2.1, (hplain f hf).2.2.2.1⟩,
+    keys := RT.keys_of_names cfg ci (fun f hf => ⟨(hplain f hf).1, (hplain f hf).2.2.2.2.1, (hplain f hf).2.2.2.2.2⟩) hN hload
+      (fun f hf k hk => by simp [htag]),
+    tagFacts := fun t ht => by cases ht }
+
+/-- `user_name`, `zip_code2` and `id` … are names of that class (non-vacuity of `RT.NameOK`) -/
+theorem C01_nameOK_examples : RT.NameOK "user_name".toList ∧ RT.NameOK "zip_code2".toList ∧ RT.NameOK "id".toList :=
+  ⟨⟨["user".toList, "name".toList], by simp, by decide, by decide⟩,
+   ⟨["zip".toList, "code2".toList], by simp, by decide, by decide⟩,
+   ⟨["id".toList], by simp, by decide, by decide⟩⟩
 
 /-- … and at the top level: `fromdict(cls, json.loads(json.dumps(asdict(x)))) == x` for every instance of a main class
 of the fragment, whatever Meta it declares (its travelling config is `rootConfig ci.cmeta`). -/
